@@ -109,10 +109,19 @@ pub fn preseal_melmint<C: ContentAddrStore>(state: UnsealedState<C>) -> Unsealed
     process_pegging(state)
 }
 
+/// Parses the pool a transaction's data names. A pool is named by two distinct, concrete denominations in canonical
+/// order; `PoolKey::from_bytes` also yields keys with reversed or equal sides, or with the `NewCustom` placeholder as a
+/// side (that is what empty data parses to), and those must not select, create or mislabel the sides of any pool.
+fn request_pool_key(data: &[u8]) -> Option<PoolKey> {
+    let key = PoolKey::from_bytes(data)?;
+    let concrete = key.left() != Denom::NewCustom && key.right() != Denom::NewCustom;
+    (concrete && key.left().to_bytes() < key.right().to_bytes()).then_some(key)
+}
+
 fn extract_pool_keys_sorted(transactions: &mut [Transaction]) -> Vec<PoolKey> {
     transactions
         .iter()
-        .filter_map(|tx| PoolKey::from_bytes(&tx.data))
+        .filter_map(|tx| request_pool_key(&tx.data))
         .collect::<Vec<_>>()
         .pipe(|mut v| {
             v.sort();
@@ -124,7 +133,7 @@ fn extract_pool_keys_sorted(transactions: &mut [Transaction]) -> Vec<PoolKey> {
 fn transactions_for_pool(transactions: &[Transaction], pool_key: &PoolKey) -> Vec<Transaction> {
     transactions
         .iter()
-        .filter(|tx| Some(pool_key) == PoolKey::from_bytes(&tx.data).as_ref())
+        .filter(|tx| Some(pool_key) == request_pool_key(&tx.data).as_ref())
         .cloned()
         .collect()
 }
@@ -235,7 +244,7 @@ fn get_swap_transactions<C: ContentAddrStore>(state: &UnsealedState<C>) -> Vec<T
         .filter_map(|tx| {
             (!tx.outputs.is_empty()).then_some(())?; // ensure not empty
             state.coins.get_coin(tx.output_coinid(0))?; // ensure that first output is unspent
-            let pool_key = PoolKey::from_bytes(&tx.data)?; // ensure that data contains a pool key
+            let pool_key = request_pool_key(&tx.data)?; // ensure that data contains a pool key
             state.pools.get(&pool_key)?; // ensure that pool key points to a valid pool
             (tx.outputs[0].denom == pool_key.left() || tx.outputs[0].denom == pool_key.right())
                 .then_some(())?; // ensure that the first output is either left or right
@@ -341,7 +350,7 @@ fn get_deposit_transactions<C: ContentAddrStore>(state: &UnsealedState<C>) -> Ve
                 && state.coins.get_coin(tx.output_coinid(0)).is_some()
                 && state.coins.get_coin(tx.output_coinid(1)).is_some())
             .then_some(())?;
-            let pool_key = PoolKey::from_bytes(&tx.data)?;
+            let pool_key = request_pool_key(&tx.data)?;
             (tx.outputs[0].denom == pool_key.left() && tx.outputs[1].denom == pool_key.right())
                 .then_some(tx)
         })
@@ -422,7 +431,7 @@ fn get_withdrawal_transactions<C: ContentAddrStore>(state: &UnsealedState<C>) ->
                 && tx.outputs.len() == 1
                 && state.coins.get_coin(tx.output_coinid(0)).is_some())
             .then_some(())?;
-            let pool_key = PoolKey::from_bytes(&tx.data)?;
+            let pool_key = request_pool_key(&tx.data)?;
             state.pools.get(&pool_key)?;
             (tx.outputs[0].denom == pool_key.liq_token_denom()).then_some(tx)
         })
